@@ -11,11 +11,11 @@ Open Scope N_scope.
 (* ------------------------------------------------------------------ what a tagged field of the class looks like *)
 
 Lemma canon_prim_shape ls e p tag v ctx g : canon_prim ls e p tag v ctx = Some g ->
-  exists pl, prim_enc e p v = Ok pl /\ framed_enc ls false tag pl = Ok g.
+  exists pl, prim_enc e p v = Ok pl /\ framed_enc_p ls p tag pl = Ok g.
 Proof.
   unfold canon_prim. destruct (bytes_empty p v); [discriminate|].
   destruct (prim_enc e p v) as [pl| | |]; try discriminate.
-  destruct (framed_enc ls false tag pl) as [g0| | |] eqn:Ef; try discriminate.
+  destruct (framed_enc_p ls p tag pl) as [g0| | |] eqn:Ef; try discriminate.
   match goal with |- (if ?c then _ else _) = _ -> _ => destruct c end; [|discriminate].
   intros [= <-]. exists pl. split; [reflexivity|exact Ef].
 Qed.
@@ -28,8 +28,9 @@ Lemma canon_fixed_len k e p tn v ctx g : canon (LFixed k) e (TPrim p) (Some tn) 
   1 <= blen g <= k + 2.
 Proof.
   cbn [canon]. intros H. destruct (canon_prim_shape _ _ _ _ _ _ _ H) as [pl [_ Hf]].
-  unfold framed_enc in Hf. cbn [len_ser] in Hf. destruct (blen pl <=? k) eqn:E; [|discriminate].
-  cbn [bind] in Hf. injection Hf as <-. rewrite !blen_app, blen_zeros. pose proof (tag_enc_len tn) as Htl. unfold tag_enc in *. lia.
+  unfold framed_enc_p, framed_enc in Hf. cbn [len_ser] in Hf. destruct (blen pl <=? k) eqn:E; [|destruct p; discriminate].
+  pose proof (tag_enc_len tn) as Htl.
+  destruct p; cbn [bind] in Hf; injection Hf as <-; rewrite !blen_app, blen_zeros; unfold tag_enc in *; lia.
 Qed.
 
 (* a tagged primitive without a length: tag + the payload *)
@@ -38,7 +39,7 @@ Lemma canon_int_nolen_len (big : bool) w tn n ctx g :
   1 <= blen g <= w + 2.
 Proof.
   cbn [canon]. intros H. destruct (canon_prim_shape _ _ _ _ _ _ _ H) as [pl [He Hf]].
-  unfold framed_enc in Hf. cbn [len_ser bind app] in Hf. injection Hf as <-. rewrite blen_app.
+  unfold framed_enc_p, framed_enc in Hf. cbn [len_ser bind app] in Hf. injection Hf as <-. rewrite blen_app.
   assert (blen pl = w).
   { destruct big; cbn [prim_enc] in He; injection He as <-; [apply (int_enc_len true)|apply (int_enc_len false)]. }
   pose proof (tag_enc_len tn) as Htl. unfold tag_enc in *. lia.
@@ -55,7 +56,7 @@ Lemma canon_tlv_prim_len e p tn v ctx g : canon LTlv e (TPrim p) (Some tn) v ctx
   exists pl, prim_enc e p v = Ok pl /\ 1 <= blen g <= blen pl + 5.
 Proof.
   cbn [canon]. intros H. destruct (canon_prim_shape _ _ _ _ _ _ _ H) as [pl [He Hf]]. exists pl. split; [exact He|].
-  unfold framed_enc in Hf. destruct (len_ser LTlv (blen pl)) as [l| | |] eqn:El; try discriminate.
+  unfold framed_enc_p, framed_enc in Hf. destruct (len_ser LTlv (blen pl)) as [l| | |] eqn:El; try discriminate.
   cbn [bind] in Hf. injection Hf as <-. rewrite !blen_app.
   pose proof (len_ser_tlv_len _ _ El). pose proof (tag_enc_len tn) as Htl. unfold tag_enc in *. lia.
 Qed.
@@ -679,15 +680,15 @@ Qed.
 Lemma canon_fixed_len_pos k e p v ctx g : canon (LFixed k) e (TPrim p) None v ctx = Some g -> blen g = k.
 Proof.
   cbn [canon]. intros H. destruct (canon_prim_shape _ _ _ _ _ _ _ H) as [pl [_ Hf]].
-  unfold framed_enc in Hf. cbn [len_ser] in Hf. destruct (blen pl <=? k) eqn:E; [|discriminate].
-  cbn [bind app] in Hf. injection Hf as <-. rewrite !blen_app, blen_zeros. lia.
+  unfold framed_enc_p, framed_enc in Hf. cbn [len_ser] in Hf. destruct (blen pl <=? k) eqn:E; [|destruct p; discriminate].
+  destruct p; cbn [bind app] in Hf; injection Hf as <-; rewrite !blen_app, blen_zeros; lia.
 Qed.
 
 Lemma canon_int_nolen_len_pos (big : bool) w n ctx g :
   canon LEmpty (if big then EBigEndian else EDefault) (TPrim (PInt w)) None (VInt n) ctx = Some g -> blen g = w.
 Proof.
   cbn [canon]. intros H. destruct (canon_prim_shape _ _ _ _ _ _ _ H) as [pl [He Hf]].
-  unfold framed_enc in Hf. cbn [len_ser bind app] in Hf. injection Hf as <-.
+  unfold framed_enc_p, framed_enc in Hf. cbn [len_ser bind app] in Hf. injection Hf as <-.
   destruct big; cbn [prim_enc] in He; injection He as <-; [apply (int_enc_len true)|apply (int_enc_len false)].
 Qed.
 
